@@ -5,7 +5,8 @@ import os
 from concurrent.futures import ThreadPoolExecutor
 from vf import build, framework as fw
 
-RULE = ("each run starts T = 2..8 threads, every one registering its own context with 2-4 modules (same module names in every "
+RULE = ("[the foreign-call matrix runs twice: owner parked on a barrier, and owner parked inside a callback of the victim; foreign threads also poll the plain getters while the owner drives a module through start/pause/resume/stop] "
+        "each run starts T = 2..8 threads, every one registering its own context with 2-4 modules (same module names in every "
         "context), literal + regex subscriptions, a descriptor source, 1-1.5 ms timers and task sources, and running a seeded "
         "deterministic program from its leader's timer (publish / tell / broadcast / descriptor writes / task registration) until "
         "quit, then tearing down; executed concurrently under TSan and under ASan; every ThreadSanitizer report is a violation (keyed "
